@@ -12,5 +12,6 @@ Extraction "model.ml"
   CRTExec.poly2mpz_coef CRTExec.mpz2poly_coef CRT.prod
   Setters.set_list
   Serial.serialize Serial.deserialize Serial.overlay
+  PolyP.step PolyP.spec_step PolyP.abs PolyP.init PolyP.hs
   Params.rows16 Params.rows32 Params.rows64 Shards.K16 Shards.K32 Shards.K64
   Z.modulo Z.div Z.mul Z.add Z.sub Z.pow.
